@@ -157,7 +157,7 @@ size_t varintDeltaDecodeUnsigned(const uint8_t *input, size_t count,
         varintWidth deltaBytes = varintDeltaGet(p, &delta);
         p += deltaBytes;
 
-        current = (uint64_t)((int64_t)current + delta);
+        current = current + (uint64_t)delta;
         output[i] = current;
     }
 
